@@ -91,10 +91,14 @@ def realise(feat: Dict[str, bool], root: Path) -> List[str]:
     (pk / "cyca.py").write_text(
         '"""Module cyca."""\nfrom pk.cycb import Impl\n'
         'class CBase:\n    """Class CBase."""\n    def run(self):\n        """Method run."""\n'
-        '    def keep(self):\n        """Method keep."""\n')
+        '    def keep(self):\n        """Method keep."""\n'
+        '    @property\n    def side(self):\n        """Property side."""\n'
+        '    @side.setter\n    def side(self, v):\n        """Set side."""\n'
+        '    @side.deleter\n    def side(self):\n        """Delete side."""\n')
     (pk / "cycb.py").write_text(
         '"""Module cycb."""\nfrom pk.cyca import CBase\n'
         'class Impl(CBase):\n    """Class Impl."""\n    def run(self):\n        """Overrides run."""\n'
+        '    @CBase.side.setter\n    def side(self, v):\n        """Impl sets side."""\n'
         'class Special(Impl):\n    """Class Special."""\n')
     srcs = [str(pk)]
     if feat["multi"]:
@@ -110,7 +114,14 @@ EXTRA_PROJECTS: Dict[str, Dict[str, str]] = {
     # a class redefined as a subclass of its own earlier definition: the superseded 'A 0' is a base class
     "redefined-base": {"m.py": '"""Module m."""\nclass A:\n    """First A."""\n    def old(self):\n        """Old method."""\n'
                                'class A(A):\n    """Second A, extends the first."""\n    def new(self):\n        """New method, see L{old}."""\n'
-                               'class B(A):\n    """Subclass of the second A."""\n'},
+                               'class B(A):\n    """Subclass of the second A."""\n'
+                               'class C(B):\n    """First C."""\nclass C(B):\n    """Second C: B has two known subclasses named C."""\n'},
+    # the same top-level package given twice on the command line, with different trees: the later one replaces the
+    # earlier one with everything below it (System._handleDuplicateModule)
+    "replaced-root": {"a/pk/__init__.py": '"""First pk."""\n', "a/pk/sub/__init__.py": '"""Sub-package."""\n',
+                      "a/pk/sub/deep.py": '"""Deep module."""\nclass Deep:\n    """Deep class."""\n    def dm(self):\n        pass\n',
+                      "a/pk/gone.py": '"""Module of the first pk only."""\ndef gf():\n    """Function gf."""\n',
+                      "b/pk/__init__.py": '"""Second pk."""\n', "b/pk/kept.py": '"""Module of the second pk."""\nclass Kept:\n    """Kept class."""\n'},
     # identifiers that need percent-encoding in URLs (PEP 3131)
     "non-ascii": {"m.py": '"""Module m, see L{Café}."""\nclass Café:\n    """Non-ASCII class name."""\n    def crème(self):\n'
                           '        """Method, see L{Café}."""\nclass Thé(Café):\n    """Subclass."""\n    def crème(self):\n        pass\n'},
@@ -126,7 +137,7 @@ EXTRA_PROJECTS: Dict[str, Dict[str, str]] = {
 EXTRA_PROJECTS["main-module"] = {"pkg/__init__.py": '"""Package."""\n',
                                  "pkg/__main__.py": '"""Entry point."""\ndef main():\n    """Run."""\n',
                                  "pkg/mod.py": '"""Module."""\ndef f():\n    """Function f."""\n'}
-EXTRA_SRC = {"main-module": ["pkg"], "redefined-base": ["m.py"], "non-ascii": ["m.py"], "redefined-members": ["pkg"], "sectioned-docstring": ["pkg"]}
+EXTRA_SRC = {"replaced-root": ["a/pk", "b/pk"], "main-module": ["pkg"], "redefined-base": ["m.py"], "non-ascii": ["m.py"], "redefined-members": ["pkg"], "sectioned-docstring": ["pkg"]}
 
 # the project of spec/PrivacyHistory.tla: the class K = Moved with methods F = mm, G = other, re-exported by api
 HISTORY_PROJECT = {
@@ -224,6 +235,8 @@ def run_job(job: Dict[str, Any]) -> Dict[str, Any]:
         else:
             srcs, privacy, cwd = job["src"], job["privacy"], None
         extra = ["--sidebar-expand-depth=%d" % job["depth"], "--sidebar-toc-depth=%d" % job["tocdepth"]] + list(job.get("extra", ()))
+        if job["kind"] == "enum" and job.get("extra"):
+            extra = extra        # (enum jobs normally carry no extra options; --html-subject runs do)
         res = sc.run_site({"name": job["name"], "src": srcs, "cwd": cwd, "out": job["out"], "privacy": privacy,
                            "theme": job["theme"], "extra": extra})
         res["job"] = job
@@ -267,7 +280,7 @@ def to_case(res: Dict[str, Any]) -> Dict[str, Any]:
         "feat": job.get("feat", {"dup": False, "move": False, "multi": False, "nested": False}),
         "nd": job.get("nd", []), "depth": proj["sidebardepth"], "roots": proj["roots"],
         "rules": [{"p": r.split(":", 1)[0].upper(), "m": r.split(":", 1)[1]} for r in job.get("privacy", [])],
-        "predict": bool(job.get("predict", True)),
+        "predict": bool(job.get("predict", True)), "partial": bool(job.get("partial", False)),
         "modelled": (ALL_PRODS if enum else STRUCTURAL_PRODS) + ENTRY_KINDS,
         "objs": objs,
         "site": {"files": site["files"], "pages": pages,
@@ -284,7 +297,7 @@ def to_case(res: Dict[str, Any]) -> Dict[str, Any]:
 
 
 # --------------------------------------------------------- the verdict: Python twin of Site.tla section 4 + 5
-MARKED_KINDS = ("table", "detail", "sidebar", "moduleIndex")
+MARKED_KINDS = ("table", "detail", "sidebar", "moduleIndex", "nameIndex")
 ALLOBJECTS_PRODS = ("nameIndex", "undocced", "classIndex", "searchDoc")
 TAGLINK_PRODS = ("classSignature", "annotation", "docstring", "memberDoc", "summaryDoc", "overrides", "baseName", "extras")
 
@@ -400,7 +413,8 @@ def verdict(case: Dict[str, Any]) -> Dict[str, Set[Tuple[Any, ...]]]:
         return f in files and (g == "" or (f in anchors and g in anchors[f]))
 
     out: Dict[str, Set[Tuple[Any, ...]]] = {k: set() for k in C11_INVARIANTS + C12_INVARIANTS}
-    for l in s["links"]:
+    full = not case.get("partial")            # a --html-subject run: links to pages outside the subjects are not judged
+    for l in s["links"] if full else ():
         if not resolves(l["file"], l["frag"]):
             out["LinksResolve"].add((l["page"], l["file"], l["frag"], l["prod"],
                                      v.kf_link(l["page"], l["file"], l["frag"], l["prod"], l["member"])))
@@ -416,6 +430,8 @@ def verdict(case: Dict[str, Any]) -> Dict[str, Set[Tuple[Any, ...]]]:
             out["VisibleHasPage"].add((i, kf))
         if not o["ownpage"] and not (o["frag"] != "" and resolves(o["file"], o["frag"])):
             out["VisibleMemberHasAnchor"].add((i, kf))
+    if not full:
+        out["LinksResolve"].clear(); out["VisibleHasPage"].clear(); out["VisibleMemberHasAnchor"].clear()
     h = out["HiddenNoTrace"]
 
     def tk(f: str, g: str, other: str) -> str:           # class of a trace (Site.tla Verdict.HiddenNoTrace)
@@ -795,6 +811,24 @@ def run_property(ctx: Ctx, prop: str) -> int:
             j = real_job("x:%s#%d" % (nm, vv), [], rules, THEMES[(n + vv) % 3], 1 + vv, 6, ctx.scratch, 9000 + 10 * n + vv)
             j.update({"project": nm, "root": str(ctx.scratch / ("xproj%d_%d" % (n, vv)))})
             extras.append(j)
+    # ---- runs limited to --html-subject objects below a hidden ancestor (the writer is entered at a non-root object)
+    def find_model(feat_on: Sequence[str], nd: List[Dict[str, str]]) -> Optional[Dict[str, Any]]:
+        want = {(r["id"], r["p"]) for r in nd}
+        for rec in recs:
+            if {kk for kk, vv in rec["feat"].items() if vv} == set(feat_on) and {(r["id"], r["p"]) for r in rec["nd"]} == want:
+                return rec
+        return None
+    for n, (fo, nd0, subj) in enumerate([(["nested"], [{"id": "pk.mod", "p": "HIDDEN"}], "pk.mod.Sub"),
+                                         (["nested"], [{"id": "pk.mod.Sub", "p": "HIDDEN"}], "pk.mod.Sub.Inner"),
+                                         (["nested"], [{"id": "pk.mod.Sub", "p": "PRIVATE"}], "pk.mod.Sub"),
+                                         (["move"], [{"id": "pk", "p": "PRIVATE"}], "pk.mod")]):
+        rec = find_model(fo, nd0)
+        if rec is None:
+            raise MachineryError("model for the --html-subject run not enumerated: %s %s" % (fo, nd0))
+        j = enum_job(rec, 900000 + n, ctx.scratch, THEMES[n % 3], 6, rng)
+        j.update({"name": "subject%d" % n, "extra": ["--html-subject", subj], "partial": True, "predict": False})
+        jobs.append(j)
+
     # ---- histories of PrivacyHistory.tla (privacy looked up before a re-export renames the class and its members)
     rh = ctx.tlc("PrivacyHistory", CFG_HISTORY.format(key="fullName", rids="{1, 2, 3, 4, 5, 6, 7}"), workers=4, check=True, timeout=300)
     if rh.violated or not rh.printed:
